@@ -1243,3 +1243,10 @@ func asBool(o Object) Boolean {
 //@ ensures [C02.access.executeonly] result == nil && depth(intp) == old(depth(intp)) && stackFrame(intp, 0)
 //@ func bNoaccess
 //@ ensures [C02.access.noaccess] result == nil && depth(intp) == old(depth(intp)) && stackFrame(intp, 0)
+
+// C07: ReadCMap returns a CMap dictionary from the file's CMap directory, and
+// the dictionary it returns carries a CMapName entry; without any CMap in the
+// file the call fails instead of returning an empty result (C13).
+//@ func ReadCMap
+//@ ensures [C07.read.named] result1 == nil ==> result0 != nil && has(result0, Name("CMapName"))
+//@ ensures [C07.read.none] result0 == nil ==> result1 != nil
